@@ -19,12 +19,12 @@ type F = float64
 // IndEntity describes one indicator type of the catalogue.
 type IndEntity struct {
 	Name    string
-	Sig     string              // input columns in parameter order: o h l c v, x = 1,2,3...
-	NOut    int                 // number of output channels
-	NCfg    int                 // number of period parameters Make understands
-	Make    func(c []int) any   // c == nil: the default constructor
-	Implied func(inst any) int  // warm-up implied by the formula, for the types without IdlePeriod()
-	NoScale bool                // configuration is derived by the constructor; do not scale fields
+	Sig     string             // input columns in parameter order: o h l c v, x = 1,2,3...
+	NOut    int                // number of output channels
+	NCfg    int                // number of period parameters Make understands
+	Make    func(c []int) any  // c == nil: the default constructor
+	Implied func(inst any) int // warm-up implied by the formula, for the types without IdlePeriod()
+	NoScale bool               // configuration is derived by the constructor; do not scale fields
 }
 
 func sorted(c []int) []int {
